@@ -31,7 +31,7 @@ def run(ctx, rep):
     # ---- K: the scanner as an extracted transducer, simulated against a forward reference
     import scanner
     rep.rule("K", "the loop of find_content_string is extracted as a finite transducer (7 states x 8 character classes, by abstract interpretation of one loop iteration per configuration); the extracted table - not the code - is simulated "
-                  "on every prefix of a structured family (what precedes, an optional doc comment incl. non-ASCII and CRLF bodies, then up to N items of whitespace / ordinary block comments / line comments) and must return what a forward "
+                  "on every concatenation of up to N lexical pieces (code, white space, line / block / doc comments incl. empty, non-ASCII and CRLF forms; N = 5 quick, 6 thorough) and must return what a forward "
                   "reference reading of the statement returns: the body of the closest doc comment when only whitespace and ordinary comments follow it, nothing otherwise")
     try:
         tab = scanner.extract(facts)
@@ -52,7 +52,7 @@ def run(ctx, rep):
             probs = ["not extractable (fail closed): %s" % e]
         rep.check(not probs, "K0", "C18|K0|slice-safety", cfg.where(f), "the doc-comment slice of find_content_string can be ill-formed (panic) for some input: %s" % "; ".join(probs),
                   witness={"text": "x /**/ y"} if probs else None, sample={"margin": scanner.margin_of(tab) if not probs else None, "transitions": len(tab["trans"])})
-        depth = 3 if ctx.tier == "thorough" else 2
+        depth = 6 if ctx.tier == "thorough" else 5
         n = 0
         bad = None
         for text in scanner.family(depth):
@@ -100,6 +100,19 @@ def run(ctx, rep):
             rep.floor("N", "doc bodies evaluated", cnt, 50)
     import loopstate
     loopstate.rule(ctx, rep, "C18", ['javadoc'])
+    rep.rule("LX", "lexical agreement (C03 A10, re-evaluated here): the property quantifies over documents - token classes, their priorities, the keyword rule, comments and white space must be the reference ones (a changed comment / number / keyword regex silently drops or merges members)")
+    import lexical
+    lexical.rules(ctx, rep, "C18", {"trivia", "classes", "priority", "keywords", "tokenizer"})
+    rep.rule("H", "inherits C12 H3-H6 (re-evaluated here): a file loaded with add_file is the text on disk, decoded as UTF-8 as a whole (the words of a doc comment reach the scanner unchanged)")
+    import c12 as _c12
+    import core as _core12
+    _r12 = _core12.Report("C12")
+    _c12.run(ctx, _r12)
+    _bad12 = [v for v in _r12.violations if v.rule in ("H3", "H5", "H6")]
+    for v in _bad12:
+        rep.fail("H", v.key.replace("C12|", "C18|", 1), v.where, v.message, witness=v.witness)
+    if not _bad12:
+        rep.ok("H", "add_content / add_file / remove_content as C12 requires", {"C12 obligations": _r12.obligations})
     rep.assumptions += ["for the constructs used (character classes, greedy star / optional, one capture group, leftmost non-overlapping replace_all / split) Python's re and the regex crate agree (rule N evaluates the extracted constants with Python's re)"]
     rep.assumptions += ["TB-1 rustc MIR", "TB-2 @L of the first symbol is the start of the construct's first token"]
     rep.not_decided += ["the backward scanner on prefixes outside the simulated family (rule K is exhaustive only within the bounded structured family; arbitrary garbage between comment and construct is not covered)",
